@@ -6,7 +6,8 @@
   behind each other where the specification allows it; round 2 — stage 7: no final line feed; 8: code spans; 9: backslash
   hard breaks; 10: inside a block quote; 11: `*` emphasis / strong; 12: indented code blocks; 13: THE UNION of 1–9, 11,
   12 (also quoted); 14: nested block quotes of any depth; 16: inline links; 17: images; 18: URI autolinks; 19: raw
-  inline HTML tags; 20: `_` emphasis) the composed model of `goldmark.Convert` (GM.Convert.convertCore: block phase with the link-reference
+  inline HTML tags; 20: `_` emphasis; round 3 — 21: THE FULL UNION (13 + all atoms of 16–20 mixed); 22 / 23: nested quotes
+  for the wider class of quotesim2) the composed model of `goldmark.Convert` (GM.Convert.convertCore: block phase with the link-reference
   transformer, inline phase, renderer; tied to the real `Convert` byte for byte by component `convert`) produces
   exactly the HTML the specification prescribes, for ALL documents of the fragment.
   The renderer options are the ones component `cmspec` configures goldmark with: `html.WithUnsafe()`,
@@ -31,6 +32,9 @@ import GM.Proof.CMFrag17Main
 import GM.Proof.CMFrag18Main
 import GM.Proof.CMFrag19Main
 import GM.Proof.CMFrag20Main
+import GM.Proof.CMFrag22Frag
+import GM.Proof.CMFrag21Frag
+import GM.Proof.CMFragSpec21Src
 import GM.Proof.CMFrag13Inl
 import GM.Proof.CMFragSpec13
 import GM.Proof.CMFragSpecN
@@ -689,6 +693,72 @@ theorem fragment20_conforms_spec (d : UnDoc) (h : UnFrag d) (hb : unnoExtraBlank
   rw [← fragment20_spell_is_spec d h hb hne, ← fragment20_expected_is_spec d h]
   exact fragment20_conforms d h uc
 
+/-! ### stage 22: quoted documents of the wider class (digits, `*`, `+`, `-` inside; `*` emphasis inside quotes) -/
+
+/-- **Nested block quotes, wider class.** As `fragment14_conforms`, for every stage-6 document with at least one block
+    whose source has no tab, CR, `[` and in which NO LINE ENDS IN `-` OR `=` (up to trailing spaces; `noBarEnd` — no rest of
+    a line is a setext underline: quotesim2's class `C08ClassG`, which allows list markers and blank lines) — `GQFrag`,
+    decidable. So `***` thematic breaks, digits, `-`, `+`, `*` inside text lines are covered; excluded are `---` breaks and
+    lines ending in `-` / `=`. -/
+theorem fragment22_conforms (H : BlockPhaseBracketFree) (k : Nat) (d : KDoc) (h : GQFrag d)
+    (uc : List (Nat × (Bool × Bool))) :
+    GM.Convert.convertCore uc { unsafe_ := true, xhtml := true, hardWraps := false } (spellNQ k d) =
+      .ok (expectedNQ k d) :=
+  GM.Proof.CMFrag.fragment22_conforms_of H k d h uc
+
+/-- **The union fragment inside `k + 1` nested block quotes, wider class**: now WITH `*` emphasis atoms (`GUQFrag`: a
+    union document with at least one block, without indented code blocks, source without tab, CR, `[`, no line ending in
+    `-` / `=`). -/
+theorem fragment22_conforms_union (H : BlockPhaseBracketFree) (k : Nat) (d : UDocS) (h : GUQFrag d)
+    (uc : List (Nat × (Bool × Bool))) :
+    GM.Convert.convertCore uc { unsafe_ := true, xhtml := true, hardWraps := false } (quoteLinesN (k + 1) (spellU d)) =
+      .ok (wrapQ (k + 1) (expectedU d)) :=
+  GM.Proof.CMFrag.fragment22U_conforms_of H GM.Proof.CMFrag.u13InlG_holds k d h uc
+
+/-! ### stage 21: the union with ALL inline atoms in its rich lines -/
+
+/-- **Conformance of the full union.** For EVERY document `d : F21Doc` — paragraphs, ATX headings, thematic breaks, fenced
+    and indented code blocks, abutting where CommonMark allows (stages 6, 12) — where every paragraph line and every heading
+    text is a rich line whose non-text atoms are, IN ANY MIX, code spans, `*x*` / `**x**`, `_x_` / `__x__` (the source bytes
+    outside an underscore run not alphanumeric), inline links `[t](d)`, images `![t](d)`, URI autolinks `<s:r>`, raw tags
+    `<n>` / `</n>`, and a paragraph line that is not the last may end with a backslash hard break (`F21Frag`, decidable):
+    the model of goldmark's `Convert` returns exactly the prescribed HTML. Contains stages 1–9, 11–13, 16–20. (Emphasis
+    delimiters stay pending across links / images until the end of the block: `link_step21`, `processDelimiters_rawS21`.) -/
+theorem fragment21_conforms (d : F21Doc) (h : F21Frag d) (uc : List (Nat × (Bool × Bool))) :
+    GM.Convert.convertCore uc { unsafe_ := true, xhtml := true, hardWraps := false } (spellF21 d) = .ok (expectedF21 d) :=
+  GM.Proof.CMFrag.fragment21_conforms d h uc
+
+/-- … written without the final line feed (the last block not an indented code block) -/
+theorem fragment21_conforms_no_final_newline (d : F21Doc) (h : F21FragE d) (uc : List (Nat × (Bool × Bool))) :
+    GM.Convert.convertCore uc { unsafe_ := true, xhtml := true, hardWraps := false } (spellF21E d) = .ok (expectedF21 d) :=
+  GM.Proof.CMFrag.fragment21E_conforms d h uc
+
+theorem fragment21_expected_is_spec (d : F21Doc) (h : F21Frag d) : expectedF21 d = expected (f21embed d) :=
+  GM.Proof.CMFrag.expectedF21_eq_expected d h
+
+theorem fragment21_spell_is_spec (d : F21Doc) (h : F21Frag d) (hb : f21noExtraBlanks d = true) (hne : d.items ≠ []) :
+    spellF21 d = spell (f21embed d) :=
+  GM.Proof.CMFrag.spellF21_eq_spell d h hb hne
+
+/-- **The full union stated on the spec model itself.** -/
+theorem fragment21_conforms_spec (d : F21Doc) (h : F21Frag d) (hb : f21noExtraBlanks d = true) (hne : d.items ≠ [])
+    (uc : List (Nat × (Bool × Bool))) :
+    GM.Convert.convertCore uc { unsafe_ := true, xhtml := true, hardWraps := false } (spell (f21embed d)) =
+      .ok (expected (f21embed d)) := by
+  rw [← fragment21_spell_is_spec d h hb hne, ← fragment21_expected_is_spec d h]
+  exact fragment21_conforms d h uc
+
+/-! ### stage 23: the full union inside nested block quotes -/
+
+/-- **The full union inside `k + 1` nested block quotes** (`GF21QFrag`: at least one block, no indented code block, source
+    without tab, CR, `[` — so no link / image atoms —, no line ending in `-` / `=`): autolinks, raw tags, code spans, `*` and
+    `_` emphasis, hard breaks inside quotes of any depth. -/
+theorem fragment23_conforms (H : BlockPhaseBracketFree) (k : Nat) (d : F21Doc) (h : GF21QFrag d)
+    (uc : List (Nat × (Bool × Bool))) :
+    GM.Convert.convertCore uc { unsafe_ := true, xhtml := true, hardWraps := false }
+      (quoteLinesN (k + 1) (spellF21 d)) = .ok (wrapQ (k + 1) (expectedF21 d)) :=
+  GM.Proof.CMFrag.fragment23_conforms_of H k d h uc
+
 /-! ### what is NOT proved yet (statements only): the next stages of the fragment -/
 
 /-- remainder (open): ATX closing sequences, spaced thematic breaks, leading indentation 1–3, info strings with other
@@ -909,6 +979,15 @@ example : expectedUn sample20 = strBytes "<p>a <em>b</em> c(<strong>d</strong>)e
 example : GM.Convert.convertCore [] { unsafe_ := true, xhtml := true, hardWraps := false } (spellUn sample20) =
     .ok (expectedUn sample20) := fragment20_conforms sample20 (by decide) []
 example : ¬ UnFrag { items := [ { lines := [[.txt [⟨97, .lit⟩], .em [98], .txt [⟨99, .lit⟩]]] } ] } := by decide
+-- test: stage 22 — digits, `*`, `-` inside the text and a `***` break inside two quotes
+def sample22 : KDoc :=
+  { items := [ { sep := 0, block := .base (.para [[⟨97, .lit⟩, ⟨49, .lit⟩, ⟨32, .lit⟩, ⟨45, .lit⟩, ⟨32, .lit⟩, ⟨42, .bs⟩, ⟨98, .lit⟩]]) },
+               { sep := 0, block := .base (.thematic 0 0) } ] }
+example : GQFrag sample22 := by decide
+example : ¬ QFrag sample22 := by decide
+example : spellNQ 1 sample22 = strBytes "> > a1 - \\*b\n> > ***\n" := by decide +kernel
+example : okIs (GM.Convert.convertCore [] { unsafe_ := true, xhtml := true, hardWraps := false } (spellNQ 1 sample22))
+    (expectedNQ 1 sample22) = true := by decide +kernel
 -- test: a good line
 example : GoodLine [97, 32, 98] := fragment_lines_quiet [⟨97, .lit⟩, ⟨32, .lit⟩, ⟨98, .lit⟩] (by decide)
 
